@@ -3,6 +3,7 @@
 cd "$(dirname "$0")" || exit 2
 export GOFLAGS=-mod=mod GOPROXY=off GOSUMDB=off GOTOOLCHAIN=local GOWORK=off
 export GOCACHE="$(pwd)/.cache/gocache"
+export VERIF_ROOT="$(pwd)"
 mkdir -p .cache evidence
 go build -o .cache/vcheck ./cmd/vcheck || exit 2
 .cache/vcheck prebuild || exit 2
